@@ -7,6 +7,7 @@ import (
 	"go/types"
 	"path/filepath"
 	"sort"
+	"strconv"
 	"strings"
 
 	"golang.org/x/tools/go/packages"
@@ -139,6 +140,17 @@ func (r Registry) searchImport(name string) (*Package, bool) {
 // packages with conflicting qualifiers.
 func (r Registry) resolveImportConflict(a, b *Package, lvl int) {
 	if a.uniqueName(lvl) == b.uniqueName(lvl) {
+		if lvl > strings.Count(a.Path(), "/")+strings.Count(b.Path(), "/") {
+			// Both paths are exhausted and still give the same name (they differ
+			// only in characters that are dropped from aliases): number a.
+			for n := 2; ; n++ {
+				name := a.uniqueName(lvl) + strconv.Itoa(n)
+				if _, ok := r.searchImport(name); !ok {
+					a.Alias = name
+					return
+				}
+			}
+		}
 		r.resolveImportConflict(a, b, lvl+1)
 		return
 	}
